@@ -85,12 +85,7 @@ func init() {
 			if bt.Granter.Bytes != nil {
 				parties = append(parties, bt.Granter.Bytes)
 			}
-			hasFeeOp := false
-			for _, o := range bt.Ops {
-				if o.IsFeeOp && bt.Tx.Wrap == WrapTop {
-					hasFeeOp = true
-				}
-			}
+			hasFeeOp := bt.HasTopLevelFeeOp()
 			for _, k := range diff {
 				ok := false
 				switch {
